@@ -56,6 +56,7 @@ def run(args):
         headers = {}
         if r.get("ctype"):
             headers["content-type"] = r["ctype"]
+        headers.update(r.get("headers") or {})
         chunks = [base64.b64decode(c) for c in r["chunks_b64"]] if r.get("chunks_b64") is not None else None
         server.requests.clear()
         server.set(r.get("status", 200), headers, body, chunks)
